@@ -483,6 +483,12 @@ def _pass_shape(gen):
     for x in ast.walk(v):
       if isinstance(x, ast.Attribute) and x.attr in FULL_SOURCES and (dotted(x.value) or '').endswith('cache'):
         src_seen = True
+      # iterating the cache itself is iterating its keys:  list(self.cache), sorted(self.cache), [m for m in self.cache]
+      if isinstance(x, ast.Call) and isinstance(x.func, ast.Name) and x.func.id in ('list', 'sorted', 'tuple', 'iter') and x.args and \
+         (dotted(x.args[0]) or '').endswith('cache'):
+        src_seen = True
+      if isinstance(x, ast.comprehension) and (dotted(x.iter) or '').endswith('cache'):
+        src_seen = True
       if isinstance(x, ast.Subscript) and isinstance(x.slice, ast.Slice):
         probs.append(('the snapshot is sliced (`%s`): part of the cache is left out of the pass' % short(x, 40), d))
       if isinstance(x, (ast.ListComp, ast.GeneratorExp, ast.SetComp, ast.DictComp)):
